@@ -5,7 +5,6 @@ package props
 
 import (
 	"fmt"
-	"go/ast"
 	"go/constant"
 	"go/token"
 	"go/types"
@@ -390,20 +389,9 @@ func spellingRule(p *core.Program, r *core.Report, rule string, g *eng.Grammar) 
 		}
 		r.Check(bad == "", rule, short(fn)+"/maximal-run", p.Pos(fn.Pos()), true, "the only exit of the scanning loop is !isNumRune(peek())", bad)
 	}
-	if fd, pkg := p.DeclOf(wktRel, "isNumRune"); fd != nil {
-		acc := map[rune]bool{}
-		ast.Inspect(fd.Body, func(n ast.Node) bool {
-			if cc, ok := n.(*ast.CaseClause); ok {
-				for _, e := range cc.List {
-					if v := eng.ConstOf(pkg.TypesInfo, e); v != nil && v.Kind() == constant.Int {
-						iv, _ := constant.Int64Val(v)
-						acc[rune(iv)] = true
-					}
-				}
-			}
-			return true
-		})
-		r.Check(acc['e'] && acc['E'] && acc['+'] && acc['-'] && acc['.'], rule, wktRel+".isNumRune/exponent", p.Pos(fd.Pos()), true, "e, E, +, -, . are number runes", "exponent notation (e, E, +) is not lexed as part of a number")
+	if fn := mustFn(p, r, rule, wktRel, "isNumRune"); fn != nil {
+		acc, ok := runePredicate(fn, "0123456789eE+-. ,()x")
+		r.Check(ok && acc['e'] && acc['E'] && acc['+'] && acc['-'] && acc['.'], rule, wktRel+".isNumRune/exponent", p.Pos(fn.Pos()), true, "e, E, +, -, . are number runes", "exponent notation (e, E, +) is not lexed as part of a number")
 	}
 	if g != nil {
 		alts := map[string]bool{}
@@ -1729,4 +1717,39 @@ func ringSignRule(p *core.Program, r *core.Report, rule string) {
 			resolve(fn, args[len(args)-1], ring, false, 0, short(fn))
 		}
 	}
+}
+
+// runePredicate evaluates a func(rune) bool for each rune of the sample with CONSTEVAL (unicode.IsDigit folded for
+// ASCII); ok is false when some answer is not a constant.
+func runePredicate(fn *ssa.Function, sample string) (map[rune]bool, bool) {
+	out := map[rune]bool{}
+	okAll := true
+	for _, ch := range sample {
+		ev := &eng.ConstEval{}
+		ev.Override = func(f *ssa.Function, v ssa.Value, args []eng.CVal) (eng.CVal, bool) {
+			if c, ok := v.(*ssa.Call); ok {
+				if o := eng.CalleeObj(c); o != nil && o.Pkg() != nil && o.Pkg().Path() == "unicode" && len(args) == 1 {
+					if k, isK := args[0].Int(); isK && k < 128 {
+						switch o.Name() {
+						case "IsDigit":
+							return eng.ConstV(constant.MakeBool(k >= '0' && k <= '9')), true
+						case "IsLetter":
+							return eng.ConstV(constant.MakeBool(k >= 'a' && k <= 'z' || k >= 'A' && k <= 'Z')), true
+						case "IsSpace":
+							return eng.ConstV(constant.MakeBool(k == ' ' || k >= 9 && k <= 13)), true
+						}
+					}
+				}
+			}
+			return eng.CVal{}, false
+		}
+		res := ev.Run(fn, []eng.CVal{eng.IntV(int64(ch))})
+		b, ok := res.Ret.Bool()
+		if !ok {
+			okAll = false
+			continue
+		}
+		out[ch] = b
+	}
+	return out, okAll
 }
